@@ -247,15 +247,19 @@ func (m *SegmentUInt64Map[V]) Values() iter.Seq[V] {
 
 // Clear removes all entries from the map
 func (m *SegmentUInt64Map[V]) Clear() {
-	// For each segment
+	// For each segment. The total is adjusted by what each segment held,
+	// as ClearSegment does: storing zero once the loop is done wiped out
+	// the increments of writers that inserted into a segment already
+	// passed, and Len() stayed below the number of reachable entries for
+	// good (a later delete drove it negative).
 	for _, segment := range m.segments {
 		segment.rwlock.Lock()
+		itemsCleared := int64(segment.data.Len())
 		segment.data.Clear()
 		segment.rwlock.Unlock()
-	}
 
-	// Reset count
-	m.count.Store(0)
+		m.count.Add(-itemsCleared)
+	}
 }
 
 // ClearSegment clears a specific segment - for radical eviction
